@@ -5,6 +5,7 @@ CONSTANTS
   CVals = {"1", "2", ""}
   DVals = {"1", "2"}
   UVals = {"1"}
+  PrefixLen = 0
   MaxHosts = 4
   MaxSel = 2
   Defects = {}
